@@ -126,6 +126,53 @@ def rule_memo_safety(ck, m, rid, pid, extra_files=()):
     return len(memo)
 
 
+def memo_decorator_roles(ck, m):
+    """Roles of the memo decorators' closure variables: `lock` = the name bound to RLock() in the decorator body, `cache` = the memo
+    container (the dict / None bound next to it) - renamed in the model's private copy so the rule text does not depend on their spelling
+    (idempotent)."""
+    from tiv.roles import rename_locals
+    for dq in ("cached", "terminal_size_cached"):
+        dfn = m.get("utils.py", dq)
+        roles = {}
+        for st_ in dfn.body:
+            tg = st_.targets[0] if isinstance(st_, ast.Assign) and len(st_.targets) == 1 else (st_.target if isinstance(st_, ast.AnnAssign) and st_.value is not None else None)
+            v_ = getattr(st_, "value", None)
+            if isinstance(tg, ast.Name) and v_ is not None:
+                if isinstance(v_, ast.Call) and (call_name(v_) or "").split(".")[-1] == "RLock":
+                    roles.setdefault(tg.id, "lock")
+                elif (isinstance(v_, ast.Dict) and not v_.keys) or (isinstance(v_, ast.Constant) and v_.value is None) or (isinstance(v_, ast.Call) and call_name(v_) == "dict" and not v_.args):
+                    roles.setdefault(tg.id, "cache")
+        if sorted(roles.values()) == ["cache", "lock"] and any(k_ != v_ for k_, v_ in roles.items()):
+            ck.extra.setdefault("roles", {})[dq] = rename_locals(dfn, roles)
+
+
+def rule_memo_key(ck, m, rid):
+    """The key under which utils.cached stores a result identifies the call: the positional arguments and the keyword arguments WITH their
+    values (`kwargs.items()`); a key built from the keyword names only lets `f(hex=False)` and `f(hex=True)` share one entry."""
+    from tiv.sem import trace
+    memo_decorator_roles(ck, m)
+    cw = m.get("utils.py", "cached.cached_wrapper")
+    keys = []
+    for n in body_walk(cw):
+        if isinstance(n, ast.Subscript) and isinstance(n.value, ast.Name) and n.value.id == "cache":
+            keys.append((n, n.slice))
+        elif isinstance(n, ast.Call) and isinstance(n.func, ast.Attribute) and isinstance(n.func.value, ast.Name) and n.func.value.id == "cache" and n.func.attr in ("setdefault", "get", "pop", "__getitem__", "__setitem__") and n.args:
+            keys.append((n, n.args[0]))
+        elif isinstance(n, ast.Compare) and len(n.ops) == 1 and isinstance(n.ops[0], (ast.In, ast.NotIn)) and isinstance(n.comparators[0], ast.Name) and n.comparators[0].id == "cache":
+            keys.append((n, n.left))
+    ck.expect(len(keys) >= 1, "cached_wrapper: no cache lookup / store recognised")
+    for n, k in keys:
+        tk = trace(cw, k, use=n)
+        has_args = any(isinstance(x, ast.Name) and x.id == "args" for x in ast.walk(tk))
+        items = [x for x in ast.walk(tk) if isinstance(x, ast.Call) and isinstance(x.func, ast.Attribute) and x.func.attr == "items" and isinstance(x.func.value, ast.Name) and x.func.value.id == "kwargs"]
+        # a comprehension over kwargs.items() must keep both components
+        proj = [c_ for c_ in ast.walk(tk) if isinstance(c_, (ast.GeneratorExp, ast.ListComp, ast.SetComp)) and any(any(y is i_ for y in ast.walk(g_.iter)) for g_ in c_.generators for i_ in items)
+                and isinstance(c_.generators[0].target, ast.Tuple) and not {t_.id for t_ in c_.generators[0].target.elts if isinstance(t_, ast.Name)} <= {x.id for x in ast.walk(c_.elt) if isinstance(x, ast.Name)}]
+        ck.ob(rid, enclosing_stmt(n), has_args and bool(items) and not proj,
+              f"utils.cached keys an entry by `{short(tk, 70)}`: the key must contain the positional arguments and the keyword arguments with their values (`kwargs.items()`) - "
+              "calls that differ only in a keyword value otherwise share one cached result", stmt=f"cached_wrapper: key identifies the call: {short(n, 40)}")
+
+
 def rule_renderer_restores_size(ck, m, rid):
     """BaseImage._renderer resolves a dynamic size for the duration of a render and must put it back on EVERY exit: the statement
     that restores it lies in the `finally` of the try whose body performs the render. The save/restore may live in a
